@@ -1033,3 +1033,26 @@ func init() {
 	reg("math/rand.Intn", func(in *Interp, fr *Frame, fn *ssa.Function, a []Value) Value { return cI(in, 0) })
 	reg("math/rand.Int", func(in *Interp, fr *Frame, fn *ssa.Function, a []Value) Value { return cI(in, 4) })
 }
+
+func init() {
+	b2s := func(in *Interp, fr *Frame, fn *ssa.Function, a []Value) Value {
+		v := a[0].(Slice).v
+		return Str{v[:len(v):len(v)]}
+	}
+	s2b := func(in *Interp, fr *Frame, fn *ssa.Function, a []Value) Value {
+		b := a[0].(Str).b
+		if len(b) == 0 {
+			return Slice{}
+		}
+		return Slice{b[:len(b):len(b)]}
+	}
+	reg("github.com/ozontech/insane-json.toString", b2s)
+	reg("github.com/ozontech/insane-json.toByte", s2b)
+	reg("github.com/ozontech/file.d/pipeline.ByteToStringUnsafe", b2s)
+	reg("github.com/ozontech/file.d/pipeline.StringToByteUnsafe", s2b)
+	reg("github.com/ozontech/file.d/pipeline.CloneString", func(in *Interp, fr *Frame, fn *ssa.Function, a []Value) Value {
+		return Str{append([]Value(nil), a[0].(Str).b...)}
+	})
+	reg("github.com/tidwall/gjson.bytesString", b2s)
+	reg("github.com/tidwall/gjson.stringBytes", s2b)
+}
